@@ -11,6 +11,46 @@ import layout
 import tir
 
 
+def thorough_selftest(pid, rep):
+    """thorough tier: every seeded mutant registered for this property is applied to a scratch copy of /repo, facts are
+    re-extracted and this check must report it. A missed mutant is a broken checker (exit 2), never a violation."""
+    import json
+    import time
+    import selftest
+    t0 = time.time()
+    ms = [m for m in selftest.catalogue() if pid in m["caught_by"]]
+    results = []
+    missed = []
+    from concurrent.futures import ThreadPoolExecutor
+    with ThreadPoolExecutor(max_workers=8) as ex:
+        for m, status, res in ex.map(selftest.run_one, [dict(m, caught_by=[pid]) for m in ms]):
+            if status != "ran":
+                missed.append(m["patch"])
+                results.append({"mutant": m["patch"], "result": status})
+                continue
+            rc, out = res[pid]
+            fired = rc == 1 and ("VIOLATION property=%s" % pid) in out
+            rule = m.get("rule")
+            named = (not rule) or any(rule in line for line in out.splitlines())
+            results.append({"mutant": m["patch"], "what": m.get("what"), "result": "caught" if fired and named else "missed", "rule": rule})
+            if not (fired and named):
+                missed.append(m["patch"])
+    path = os.path.join(common.EVID, "%s.json" % pid)
+    with open(path) as fh:
+        ev = json.load(fh)
+    ev["coverage"]["mutants_applied"] = len(ms)
+    ev["coverage"]["mutants_caught"] = len(ms) - len(missed)
+    ev["coverage"]["mutant_results"] = results
+    ev["wall_s"] = round(ev["wall_s"] + time.time() - t0, 3)
+    with open(path, "w") as fh:
+        json.dump(ev, fh, indent=1)
+    print("%s thorough: %d seeded mutants applied to scratch copies, %d reported by this check" % (pid, len(ms), len(ms) - len(missed)))
+    if missed:
+        print("CHECKER-BROKEN %s: seeded mutants not reported: %s" % (pid, ", ".join(missed)))
+        return common.EXIT_BROKEN
+    return common.EXIT_OK
+
+
 def main():
     args = sys.argv[1:]
     if not args:
@@ -34,7 +74,10 @@ def main():
         rep.note("facts: %d bodies, source hash %s, cache %s" % (len(doc["bodies"]), doc["source_hash"][:16], doc.get("_cache")))
         rep.counts["functions_analysed"] = len([b for b in doc["bodies"] if b["kind"] in ("Fn", "AssocFn")])
         try:
-            return mod.run(F, rep, tier)
+            rc = mod.run(F, rep, tier)
+            if tier == "thorough" and rc == common.EXIT_OK and not os.environ.get("PEPPI_REPO"):
+                rc = thorough_selftest(pid, rep)
+            return rc
         except layout.Unsupported as e:
             # a construct outside an engine's fragment that no rule caught locally: fail closed as a violation
             rep.cannot("fragment", pid, e)
